@@ -15,7 +15,7 @@ EXPLANATION = ('Map-equivalence of arbitrary histories and attribution of evicti
                '(R11.3) in the sharded get/touch the miss/false outcome of the first candidate leads to the same operation on the '
                'second candidate, and the candidates are the two components of the key\'s pair; (R11.4) set publishes onto '
                '(directory + key) only by a replacing rename, never by an exclusive link; (R11.5) promotion inserts with put, never set (= R13.3).')
-FLOORS = {'R11.1': 4, 'R11.2': 4, 'R11.3': 4, 'R11.4': 3, 'R11.5': 2}
+FLOORS = {'R11.1': 4, 'R11.2': 4, 'R11.3': 4, 'R11.4': 3, 'R11.5': 2, 'R11.6': 2}
 
 
 def r11_1(ctx):
@@ -183,6 +183,13 @@ def r11_5(ctx):
             for i in c13.r13_3(ctx) if 'Promote' in i['key'] or 'never replaces' in i['key']]
 
 
+def r11_6(ctx):
+    """a promoted copy is a value some writer supplied: it is copied from the rewound hit into a fresh file (= R13.5), so
+    later lookups on the write cache do not return bytes nobody ever set or put."""
+    from rules import c13
+    return [inst('R11.6', i['key'].split('|', 1)[1], i['ok'], i['detail'], path=i.get('path') or []) for i in c13.r13_5(ctx)]
+
+
 def run(ctx):
     from runner import collect
-    return collect(ctx, r11_1, r11_2, r11_3, r11_4, r11_5)
+    return collect(ctx, r11_1, r11_2, r11_3, r11_4, r11_5, r11_6)
